@@ -113,7 +113,7 @@ func (e *Enc) dispatch(fr *Frame, st *State, ci calleeInfo, cc *ssa.CallCommon, 
 		return m(e, fr, st, args, argTypes, pos)
 	}
 	// 2. contract
-	if spec, ok := e.P.Specs[ci.name]; ok && (len(spec.Ensures) > 0 || len(spec.Requires) > 0 || len(spec.Invariants) > 0 || len(spec.Modifies) > 0 || spec.Kind != "" || spec.Trusted) && !(ci.fn == e.Top && len(e.stack) == 0) {
+	if spec, ok := e.P.Specs[ci.name]; ok && (len(spec.Ensures) > 0 || len(spec.Requires) > 0 || len(spec.Invariants) > 0 || len(spec.Modifies) > 0 || spec.ModifiesAll || spec.Kind != "" || spec.Trusted) && !(ci.fn == e.Top && len(e.stack) == 0) {
 		if ci.fn == nil || len(ci.fn.Blocks) == 0 || spec.Trusted || spec.Verify || spec.NoInline {
 			e.UsedSpecs[ci.name] = true
 			return e.applySpec(fr, st, spec, ci, args, argTypes, pos)
@@ -126,7 +126,7 @@ func (e *Enc) dispatch(fr *Frame, st *State, ci calleeInfo, cc *ssa.CallCommon, 
 		// receiver; every *Int cell passed in becomes unknown, every non-pointer result is unknown.
 		return e.havocU256Call(fr, st, ci, args, argTypes, pos)
 	}
-	if pureLibrary[ci.name] {
+	if pureLibrary[ci.name] || strings.HasPrefix(ci.name, "(github.com/artela-network/aspect-core/types.JoinPointRunType).") {
 		// value-level helpers of go-ethereum's common / crypto packages: they write no memory reachable from their
 		// arguments; the result is unknown (a byte-slice result may be a new object or alias an argument)
 		e.UsedExtern[ci.name+" (over-approximated: writes nothing, result unknown)"] = true
@@ -492,7 +492,10 @@ func (e *Enc) promisesZeroOffset(spec *FuncSpec, sig *types.Signature, i int) bo
 }
 
 var pureLibrary = map[string]bool{
-	"github.com/ethereum/go-ethereum/log.Error": true, "github.com/ethereum/go-ethereum/log.Warn": true,
+	"strings.HasPrefix": true, "strings.HasSuffix": true, "strings.Contains": true, "strings.TrimPrefix": true,
+	"fmt.Sprintf": true, "fmt.Errorf": true, "fmt.Sprint": true, "strings.ToLower": true, "strings.ToUpper": true,
+	"(github.com/artela-network/aspect-core/types.JoinPointRunType).String": true,
+	"github.com/ethereum/go-ethereum/log.Error":                             true, "github.com/ethereum/go-ethereum/log.Warn": true,
 	"github.com/ethereum/go-ethereum/log.Info": true, "github.com/ethereum/go-ethereum/log.Debug": true,
 	"common.RightPadBytes": true, "common.LeftPadBytes": true, "common.BigToHash": true, "common.BigToAddress": true,
 	"common.HexToAddress": true, "common.HexToHash": true, "common.Bytes2Hex": true,
